@@ -7,11 +7,11 @@ for d in seeded/*/; do
   name=$(basename "$d"); id=${name%%-*}
   [ -n "$ONLY" ] && [ "$ONLY" != "$name" ] && [ "$ONLY" != "$id" ] && continue
   [ -n "$(git -C /repo status --short | grep -v '^??')" ] && { echo "/repo is dirty"; exit 2; }
-  git -C /repo apply "$d/patch.diff" || { echo "$name: patch does not apply"; continue; }
+  git -C /repo apply "/verif/${d}patch.diff" || { echo "$name: patch does not apply"; continue; }
   out=$(./vcheck "$id" quick 2>&1 | grep -v "^KNOWN-FINDING" | grep -E "^(VIOLATION|OK|generator|vcheck)|signature:" | head -2 | tr '\n' ' ' | cut -c1-300)
   git -C /repo checkout -- .
   echo "$name: $out"
-  python3 - "$d/meta.json" "$out" <<'PY'
+  python3 - "/verif/${d}meta.json" "$out" <<'PY'
 import json,sys
 p,out=sys.argv[1:3]
 m=json.load(open(p)); m["latest_check"]=out.strip(); json.dump(m,open(p,"w"),indent=1)
